@@ -319,7 +319,9 @@ func buildPlan(r *rand.Rand, c combo) (*plan, error) {
 		// stored position lies beyond the switch a command boundary of the new history is made
 		// to fall on the same number (the continuation then parses cleanly: the silent case).
 		cacheCovers := c.Cache == "natural" || c.Cache == "log-only" // a cache under the first id decides by itself
-		if havePos && c.Pid == "id1" && p.CP.Off > p.S && !cacheCovers && r.Intn(10) < 7 {
+		// (an abandoned full resynchronisation leaves the cache empty: same situation)
+		abandoned := c.Drop || c.TFault != ""
+		if havePos && c.Pid == "id1" && p.CP.Off > p.S && ((!cacheCovers && r.Intn(10) < 7) || (abandoned && r.Intn(10) < 8)) {
 			for p.CP.Off-p.H2.End() > 400 {
 				p.H2.appendPiece(genPiece(r, fmt.Sprintf("d%d", len(p.H2.Cmds)), 1+r.Intn(3), p.PTxn))
 			}
